@@ -9,6 +9,7 @@ package regen
 import (
 	"fmt"
 	"go/ast"
+	"go/parser"
 	"go/token"
 	"go/types"
 	"os"
@@ -42,9 +43,9 @@ type Result struct {
 	Leftover  []string            // directive calls left in generated code
 	Files     int
 	Packages  int
-	GenErrs   []string // cff invocations that failed
-	Outside   []FileCmp           // source vs generated outside directive sites
-	Tags      []FileCmp           // build-constraint inversion, per file
+	GenErrs   []string                       // cff invocations that failed
+	Outside   []FileCmp                      // source vs generated outside directive sites
+	Tags      []FileCmp                      // build-constraint inversion, per file
 	Tokens    map[string]map[string][]string // corpus -> rel path -> comment-free token stream of the generated file
 }
 
@@ -247,6 +248,40 @@ func analyse(res *Result, c Corpus, dir string, env []string, directives map[str
 			res.Instances = append(res.Instances, instancesOf(c.Name, rel, p, f, sf.pkg, sf.file, srcFset)...)
 			res.Outside = append(res.Outside, compareOutside(c.Name+"/"+rel, sf.pkg, sf.file, srcFset, p, f))
 			res.Tags = append(res.Tags, compareConstraints(c.Name+"/"+rel, sf.file, f))
+		}
+	}
+	if c.VRules {
+		// every source file that is selected with the cff tag and holds a directive must have its generated
+		// counterpart selected without the tag (otherwise the package loses that file's declarations, or keeps
+		// the unexpanded source): pairing from the source side, so that a counterpart that was not written or
+		// whose constraint was not inverted cannot go unnoticed
+		var paths []string
+		for path := range srcByPath {
+			paths = append(paths, path)
+		}
+		sort.Strings(paths)
+		for _, path := range paths {
+			sf := srcByPath[path]
+			if strings.HasSuffix(path, "_gen.go") || strings.HasSuffix(path, "_gen_test.go") || len(directiveCalls(sf.pkg, sf.file)) == 0 {
+				continue
+			}
+			genPath := strings.TrimSuffix(path, ".go") + "_gen.go"
+			if strings.HasSuffix(path, "_test.go") {
+				genPath = strings.TrimSuffix(path, "_test.go") + "_gen_test.go"
+			}
+			if seenFile[genPath] {
+				continue
+			}
+			rel, _ := filepath.Rel(dir, genPath)
+			fc := FileCmp{Key: c.Name + "/" + rel}
+			if gf, err := parser.ParseFile(token.NewFileSet(), genPath, nil, parser.ParseComments); err != nil {
+				fc.Bad = "the source file is selected with the cff tag and holds a directive, but no generated counterpart was written"
+			} else if cmp := compareConstraints(fc.Key, sf.file, gf); cmp.Bad != "" {
+				fc.Bad = "the generated counterpart is not selected when the cff tag is off: " + cmp.Bad
+			} else {
+				fc.Bad = "the generated counterpart exists but is not part of the package built without the cff tag"
+			}
+			res.Tags = append(res.Tags, fc)
 		}
 	}
 	return nil
